@@ -304,6 +304,14 @@ func Main(p Prop) {
 	if maxProcs <= 0 {
 		maxProcs = runtime.NumCPU()
 	}
+	if !isReplay && *onlyB == "" {
+		// witnesses of earlier runs of this tier are stale
+		if old, _ := filepath.Glob(filepath.Join(verifDir(), "replay", p.ID, *tier+"-*.json")); len(old) > 0 {
+			for _, f := range old {
+				os.Remove(f)
+			}
+		}
+	}
 	tot := supervise(p, batches, maxProcs)
 	if p.Finish != nil && !isReplay && *onlyB == "" {
 		if why := p.Finish(tot); why != "" {
